@@ -91,7 +91,20 @@ def main(tier):
     # implementation-level model of the repair loop (spec/RepairLoop.tla): every behaviour replayed on convert_to_archive
     run_rloop(v, "C02", tier, ev)
     cli_truncated(v, tier, ev)
-    cov = dict(cli_truncated_repairs=ev.get("cli_truncated_repairs", 0), states=res.distinct + ev.get("trace_states", 0), transitions=res.generated,
+    # COUNTS x interleaving at production constants: 5 000 files added and closed while ONE file stays open from the first
+    # call to the last; the intact archive and a cut are repaired (soundness clauses; completeness is C05's)
+    import json as _j
+    nmany = 5000 if tier == "quick" else 70000
+    mo = os.path.join(workdir("c02-many"), "many.json")
+    mbt("prod", "many", "repair", mo, str(nmany), timeout=3000)
+    mres = _j.load(open(mo))
+    for viol in mres["violations"]:
+        if viol["kind"] == "CompleteOnIntact":
+            continue
+        v.violation(dict(check="many-files", clause=viol["kind"], profile="prod"),
+                    dict(engine="many", mode="repair", files=nmany, stack=viol["stack"], detail=viol["detail"]))
+    ev["many_files"] = dict(files=nmany, stacks_ok=mres["stacks_ok"])
+    cov = dict(many_files=ev.get("many_files"), cli_truncated_repairs=ev.get("cli_truncated_repairs", 0), states=res.distinct + ev.get("trace_states", 0), transitions=res.generated,
                traces_validated_against_impl=ev.get("traces", 0), repairs_validated=ev.get("repairs", 0),
                archives=ev.get("scenarios", 0), writer_scenarios_available=len(scens),
                samples=[dict(labels=c["labels"]) for c in chosen[:2]] or ["none"],
